@@ -44,7 +44,7 @@ class Scn:
         os.makedirs(base, exist_ok=True)
         prepare(base)
 
-    def run(self, plan="", want_log=False, timeout=60, rundir=None, stdin_bytes=None, stdout_pipe=False, env=None):
+    def run(self, plan="", want_log=False, timeout=60, rundir=None, stdin_bytes=None, stdout_pipe=False, env=None, tools=None):
         """returns dict(rc, err, crashed, timeout, snap, log, out_exists)"""
         rd = rundir or tempfile.mkdtemp(prefix="r", dir=self.base)
         try:
@@ -52,6 +52,8 @@ class Scn:
             cwd = self.cwd_fn(self.base, rd) if self.cwd_fn else rd
             argv_out = "out" if self.relative_out else outp
             argv = self.argv_fn(self.base, argv_out)
+            if tools is not None:
+                argv = [tools[self.tool]] + argv[1:]       # the same scenario with another build of the tool (e.g. without the controller)
             stdout_file = os.path.join(rd, "stdout.bin") if not stdout_pipe else None
             r, log = envrun.run_env(argv, plan=plan, out_path=outp if self.packer else None,
                                     stdin_file=self.stdin_file(self.base) if (self.stdin_file and stdin_bytes is None) else None,
